@@ -1728,8 +1728,37 @@ def normalise_function_names(repo):
                     ha, wa = sorted(anon(t_) for t_ in have_st), sorted(anon(t_) for t_ in want_st)
                     if ha == wa:
                         sim = 0.9
+                    else:
+                        # several helpers renamed at once call each other under their new names, and a formatter re-spells a few
+                        # statements: compare the name-free statements as multisets, calls of other renamed / gone helpers blanked
+                        import collections as _col
+                        moved_names = {x_.rpartition('.')[2] for x_ in new} | {x_.rpartition('.')[2] for x_ in gone}
+
+                        def blank(txt):
+                            try:
+                                t_ = ast.parse(txt)
+                            except SyntaxError:
+                                return txt
+                            for x_ in ast.walk(t_):
+                                if isinstance(x_, ast.Name):
+                                    x_.id = '_'
+                                elif isinstance(x_, ast.arg):
+                                    x_.arg = '_'
+                                elif isinstance(x_, ast.Attribute) and x_.attr in moved_names:
+                                    x_.attr = '_h'
+                            return U(t_)
+                        hb, wb = _col.Counter(blank(t_) for t_ in have_st), _col.Counter(blank(t_) for t_ in want_st)
+                        inter = sum((hb & wb).values())
+                        union = sum((hb | wb).values())
+                        if union and inter / union >= 0.6:
+                            sim = 0.5 + 0.4 * inter / union
                 if sim >= 0.5:
                     cands.append((sim, nw, was_method, pmap))
+            if len(cands) > 1:
+                # several new functions look similar: the best one must stand out
+                cands.sort(key=lambda c_: -c_[0])
+                if cands[0][0] - cands[1][0] >= 0.15:
+                    cands = cands[:1]
             if len(cands) == 1:
                 sim, nw, was_method, pmap = cands[0]
                 mapping[(rel, nw)] = g
